@@ -30,6 +30,8 @@ CLAIMED = {
             "2 bins 1D / 2x1 2D, one operation per instance (thorough: all dtype pairs); contents are symbolic integers, float weights/factors symbolic multiples of 1/4, so every value is exact in every float type (float16/32 rounding itself is outside R-mode)", "DESIGN.md 5/C13"),
     "C18": ("Bounded symbolic model checking of one inductive step from an arbitrary valid state: for 1D (static int/float, adaptive) and 2D histograms with symbolic contents/errors2/missed, each call of a pool of ~50 valid and invalid public operations (incompatible / non-histogram operands, wrong data or weight shapes, invalid dtype / weight / axis / index / merge amount, over-subtraction, negative factors, bad setters, collection misuse) with symbolic arguments leaves the histogram well-formed (matching shapes, errors2 >= 0, contents >= 0), is refused where the statement says so, and if it raises leaves every content per bin interval, error2 and missed count term-equal to before. Histories are sequences of such steps; thorough adds all two-step histories.",
             "2 bins 1D, 2x2 2D; one step (quick), two steps (thorough)", "DESIGN.md 5/C18"),
+    "C04": ("Two encodings of the same real code (FixedWidthBinning._force_bin_existence(_single), numpy_bins, first/last_edge, HistogramBase._reshape_data/_apply_bin_map, adaptive branches of fill/fill_n, find_bin): (1) exact-real inductive step from an ARBITRARY grid state (symbolic width, shift, offset, contents) with one fill / fill_n of symbolic values: grid invariant, every value inside a bin, exact span, old contents attached to their intervals, totals, nothing missed, 1D..3D; (2) binary64 FP-mode (z3 FloatingPoint, RNE) execution of the same kernel for constant widths with a symbolic binary64 value: the value filled is inside a bin. (2) is what finds the decimal-literal losses (width 0.1).",
+            "(1) bin_count 0..2 (quick) / 0..3, values within 3 (quick) / 4 widths, 1..3 values; (2) widths 0.5, 1.0, 0.25 with |v| <= 8 widths (quick); 9 widths incl. 0.1, 0.2, 0.3, 1e-3 with |v| <= 30 widths (thorough)", "DESIGN.md 5/C04"),
 }
 
 REASONS_NOT_YET = "check not built yet (work in progress; see DESIGN.md section 8 build order)"
